@@ -9,6 +9,7 @@
      describe  parsePEMBlock;  cert_info parseCertificate;  enc_name EncryptionAlgorithm().Name
      secret    java.UnmarshalReader on a SealedObject (secret_ok: consumes exactly the blob) *)
 From WI Require Import Lib.Base Lib.Info Lib.Strings Lib.Time Model.Containers Proofs.Containers.
+From WI Require Model.Base64.
 Open Scope N_scope.
 
 (* ---------------- authorized_keys / known_hosts ---------------- *)
@@ -67,6 +68,98 @@ Theorem C06_known_hosts_refuted : exists lib its le trail,
   exists k, known_hosts lib (render its le trail) = Ok (Info (bs "SSH known_hosts") [] k) /\ length k = 1%nat.
 Proof. exact known_hosts_pre_refuted. Qed.
 Print Assumptions C06_known_hosts_refuted.
+
+(* ---------------- the lines, field by field ---------------- *)
+
+(* lib is no longer abstract: ssh_auth_lib / ssh_hosts_lib (Model/Containers.v) re-model, from
+   golang.org/x/crypto v0.28.0 ssh/keys.go, how ParseAuthorizedKey / ParseKnownHosts cut a line into fields
+   (CR cut, TrimSpace, options scanner with quotes and escaped quotes, bytes.Fields, marker, base64 field,
+   comment) down to ssh.ParsePublicKey on the decoded blob, which stays a parameter (key_of).  The
+   correspondence check compares them with the library on every chunk of every generated file and on
+   single lines (op sshline). *)
+
+(* the CR half of lib_accepts is a theorem of the model: what follows the first CR of a line is never looked at *)
+Theorem C06_ssh_line_cr : forall key_of l x,
+  auth_line key_of (l ++ 13 :: x) = auth_line key_of l /\ hosts_line key_of (l ++ 13 :: x) = hosts_line key_of l.
+Proof. intros. split; [apply auth_line_cr|apply hosts_line_cr]. Qed.
+Print Assumptions C06_ssh_line_cr.
+
+(* the file theorems with the modelled line parsers: all that is asked of an entry line is that it is accepted *)
+Theorem C06_authorized_keys_model : forall key_of its le trail,
+  layout_ok its = true ->
+  (forall e, In e (entries_of its) -> exists a, ssh_auth_lib key_of e = Ok a) ->
+  authorized_keys (ssh_auth_lib key_of) (render its le trail) =
+    Ok (Info (bs "SSH authorized_keys") [] (map (ssh_child (ssh_auth_lib key_of)) (entries_of its))).
+Proof. exact authorized_keys_model. Qed.
+Print Assumptions C06_authorized_keys_model.
+
+Theorem C06_known_hosts_model : forall key_of its le trail,
+  layout_ok its = true ->
+  (forall e, In e (entries_of its) -> exists a, ssh_hosts_lib key_of e = Ok a) ->
+  known_hosts (ssh_hosts_lib key_of) (render its le trail) =
+    Ok (Info (bs "SSH known_hosts") [] (map (ssh_child (ssh_hosts_lib key_of)) (entries_of its))).
+Proof. exact known_hosts_model. Qed.
+Print Assumptions C06_known_hosts_model.
+
+(* One authorized_keys line, for EVERY entry written field by field (auth_entry_ok, boolean): blanks, optional
+   options field (any bytes; every quoted string closed, a backslash escapes a quote, blanks only inside
+   quotes: opts_ok) and blanks, key type (no blank inside), blanks, base64 field (visible ASCII), then nothing
+   or a blank and any text that does not end in white space, blanks; no CR/LF.  The line is accepted, the
+   key is the one of the base64 field and the comment is the rest of the line, trimmed.  With options:
+   provided the text after the first blank of the line is not itself "base64 of a key blob, comment" -
+   the library tries that first (known finding C06-ssh-quoted-key shows the hypothesis cannot be dropped). *)
+Theorem C06_authorized_keys_line : forall key_of e key k,
+  auth_entry_ok e = true ->
+  Base64.std_decode Base64.Std (ae_b64 e) = Some key -> key_of key = Ok k ->
+  (ae_opts e <> [] -> exists err, parse_key_field key_of (snd (span_word (auth_core e))) = Err err) ->
+  ssh_auth_lib key_of (auth_text e) = Ok (key_attrs k (trim_space (ae_tail e))).
+Proof. exact auth_lib_entry. Qed.
+Print Assumptions C06_authorized_keys_line.
+
+(* One known_hosts line: blanks, optional marker "@..." and blanks, host patterns, blanks, key type, blanks,
+   base64 field, up to two comment words (one after a marker) each after blanks, blanks; words made of
+   bytes that are neither ASCII white space nor the first byte of the UTF-8 encoding of a white-space rune
+   (hosts_entry_ok).  Accepted; Hosts is the comma-separated list re-joined with ", ", the key is the one
+   of the base64 field, the comment is the comment words joined by single blanks. *)
+Theorem C06_known_hosts_line : forall key_of e key k,
+  hosts_entry_ok e = true ->
+  Base64.std_decode Base64.Std (he_b64 e) = Some key -> key_of key = Ok k ->
+  ssh_hosts_lib key_of (hosts_text e) = Ok (hosts_attr (he_hosts e) :: key_attrs k (join [32] (map snd (he_comment e)))).
+Proof. exact hosts_lib_entry. Qed.
+Print Assumptions C06_known_hosts_line.
+
+(* Files whose entries are written field by field, every layout of blank and comment lines, LF/CRLF, any number
+   of trailing line endings: child i is "SSH public key" with Type and key attributes of the blob of entry i's
+   base64 field and entry i's comment - no hypothesis about the line parsers is left, only about
+   ssh.ParsePublicKey on the decoded blobs (auth_key_ok) *)
+Theorem C06_authorized_keys_fields : forall key_of kinfo its le trail,
+  forallb aitem_ok its = true ->
+  (forall e, In e (aentries its) -> auth_key_ok key_of e (kinfo e)) ->
+  authorized_keys (ssh_auth_lib key_of) (render (map aitem_item its) le trail) =
+    Ok (Info (bs "SSH authorized_keys") [] (map (auth_child kinfo) (aentries its))).
+Proof. exact authorized_keys_fields. Qed.
+Print Assumptions C06_authorized_keys_fields.
+
+Theorem C06_known_hosts_fields : forall key_of kinfo its le trail,
+  forallb hitem_ok its = true ->
+  (forall e, In e (hentries its) -> exists key, Base64.std_decode Base64.Std (he_b64 e) = Some key /\ key_of key = Ok (kinfo e)) ->
+  known_hosts (ssh_hosts_lib key_of) (render (map hitem_item its) le trail) =
+    Ok (Info (bs "SSH known_hosts") [] (map (hosts_child kinfo) (hentries its))).
+Proof. exact known_hosts_fields. Qed.
+Print Assumptions C06_known_hosts_fields.
+
+(* the hypotheses are met: a plain entry; an entry with leading blank, options  command="say \"hi\" # x",no-pty,
+   a tab, two blanks before the key, a two-word comment and trailing blanks; known_hosts entries with two hosts and a
+   two-word comment, and with a marker *)
+Theorem C06_ssh_fields_example :
+  (forallb auth_entry_ok example_auth_entries = true /\
+   forall e, In e example_auth_entries ->
+     auth_key_ok toy_key_of e (bs "ssh-toy", [(bs "Size", dec_of_N (N.of_nat (length (ae_b64 e) / 4 * 3)))])) /\
+  (forallb hosts_entry_ok example_hosts_entries = true /\
+   forall e, In e example_hosts_entries -> exists key, Base64.std_decode Base64.Std (he_b64 e) = Some key /\
+     toy_key_of key = Ok (bs "ssh-toy", [(bs "Size", dec_of_N (N.of_nat (length (he_b64 e) / 4 * 3)))])).
+Proof. exact (conj example_auth_ok example_hosts_ok). Qed.
+Print Assumptions C06_ssh_fields_example.
 
 (* ---------------- PEM bundles ---------------- *)
 
